@@ -2,6 +2,7 @@ import BtcModel.Base58
 import BtcModel.Bech32
 import BtcProofs.Lemmas.Convert
 import BtcProofs.Lemmas.Bech32
+import BtcProofs.Lemmas.Bits
 /-!
 # C11 — Checksummed text encodings are canonical and corruption is rejected
 
@@ -213,6 +214,34 @@ theorem hrpExpand_lt (hrp : List Char) (h : ∀ c ∈ hrp, c.toNat < 128) : ∀ 
   · have := h c hc; omega
   · decide
   · have := h c hc; omega
+
+/-- T4c: the 8→5 bit regrouping with padding (address encoder) followed by the strict 5→8 regrouping
+(address decoder) returns the program bytes — any length. -/
+theorem convertBits_roundtrip (data : List Nat) (h : ∀ v ∈ data, v < 256) :
+    convertBitsNoPad 5 8 (convertBitsPad 8 5 data) = some data := by
+  unfold convertBitsPad convertBitsNoPad
+  simp only
+  have hb : (toBits 8 data).length = data.length * 8 := toBits_length 8 data
+  generalize hp : (5 - (toBits 8 data).length % 5) % 5 = padn
+  have hpad : padn < 5 := by omega
+  obtain ⟨m, hm⟩ : ∃ m, (toBits 8 data ++ List.replicate padn false).length = m * 5 := by
+    refine ⟨((toBits 8 data).length + padn) / 5, ?_⟩
+    rw [List.length_append, List.length_replicate]; omega
+  rw [toBits_fromBits 5 (by decide) m _ hm]
+  have hlen : (toBits 8 data ++ List.replicate padn false).length = data.length * 8 + padn := by
+    rw [List.length_append, List.length_replicate, hb]
+  have hfull : (toBits 8 data ++ List.replicate padn false).length / 8 * 8 = (toBits 8 data).length := by
+    rw [hlen, hb]; omega
+  rw [hfull, List.drop_left', List.take_left']
+  · have hrest : ¬ ((List.replicate padn false).length ≥ 5 ∨ (List.replicate padn false).any id = true) := by
+      intro hc; rcases hc with hc | hc
+      · simp at hc; omega
+      · simp at hc
+    rw [if_neg hrest]
+    have h8 : ∀ v ∈ data, v < 2 ^ 8 := fun v hv => by have := h v hv; omega
+    rw [fromBits_toBits 8 (by decide) data h8]
+  · rfl
+  · rfl
 
 /-- the two checksum constants differ, so the Bech32 / Bech32m mix-up is a rejection -/
 theorem consts_differ : bech32Const ≠ bech32mConst := by decide
